@@ -49,6 +49,14 @@ func VfC20_ModuleOrder() {
 	kind := vfChoice("kind", 3)
 	perm := vfChoice("perm", 3)
 	a, b, c := hC20Names("n")
+	if kind == 0 && vfChoice("name-class", 2) == 1 {
+		// a numbered entity (all digits; for types: `%7`), a name that starts
+		// with a byte below '0' (`$y`, `-x`, `.x`; quoted by the printer where
+		// needed) and a letter
+		lo := vfString("low", 1)
+		vfAssume(vfOr(lo[0] == '$', vfOr(lo[0] == '-', lo[0] == '.')))
+		a, b = hDigits("num", 1, '0', '9'), lo+"y"
+	}
 	var defs [3]string
 	sigil := "%"
 	extra := ""
